@@ -76,7 +76,7 @@ impl StopHandle {
 
 /// The worker-side ends of a handle pair.
 pub struct WorkerEnds {
-    conn_rx: UnboundedReceiver<Conn>,
+    conn_rx: Option<UnboundedReceiver<Conn>>,
     stop_rx: UnboundedReceiver<Stop>,
     counter: WorkerCounter,
     raw: Counter,
@@ -86,10 +86,20 @@ impl WorkerEnds {
     /// What `ServerWorker` does in its `Available` loop: take the next connection and create its
     /// counter guard.
     pub fn recv(&mut self) -> Option<InFlight> {
-        match self.conn_rx.try_recv() {
+        match self.conn_rx.as_mut()?.try_recv() {
             Ok(conn) => Some(InFlight { conn, _guard: self.counter.guard() }),
             Err(_) => None,
         }
+    }
+
+    /// the worker dies: its receiving end is dropped (queued connections with it)
+    pub fn die(&mut self) {
+        self.conn_rx = None;
+    }
+
+    /// the receiving end still exists
+    pub fn alive(&self) -> bool {
+        self.conn_rx.is_some()
     }
 
     /// raw value of the shared atomic counter (biased by one, see `Counter::new`)
@@ -111,7 +121,7 @@ pub fn worker_ends(idx: usize, waker: &WakerHandle, limit: usize) -> (AcceptHand
     let counter = Counter::new(limit);
     let (accept, server) = handle_pair(idx, tx1, tx2, counter.clone());
     let ends = WorkerEnds {
-        conn_rx,
+        conn_rx: Some(conn_rx),
         stop_rx,
         counter: WorkerCounter::new(idx, waker.0.clone(), counter.clone()),
         raw: counter,
